@@ -45,13 +45,14 @@ Fixpoint pyval_eqb (a b : pyval) {struct a} : bool :=
          end) kv kw
   | PEnum c n v, PEnum c' n' v' => pystr_eqb c c' && pystr_eqb n n' && pyval_eqb v v'
   | PStruct c at1, PStruct c' at2 =>
-      pystr_eqb c c' &&
-      (fix eq_at (l m : list (pystr * pyval)) {struct l} : bool :=
-         match l, m with
-         | [], [] => true
-         | (k, x) :: l', (k', y) :: m' => pystr_eqb k k' && pyval_eqb x y && eq_at l' m'
-         | _, _ => false
-         end) at1 at2
+      (* the order of instance.__dict__ is not significant: compare as maps *)
+      pystr_eqb c c' && Nat.eqb (length at1) (length at2) &&
+      (fix all_at (l : list (pystr * pyval)) : bool :=
+         match l with
+         | [] => true
+         | (k, x) :: l' =>
+             existsb (fun p => pystr_eqb k (fst p) && pyval_eqb x (snd p)) at2 && all_at l'
+         end) at1
   | POther t r, POther t' r' => pystr_eqb t t' && pystr_eqb r r'
   | _, _ => false
   end.
